@@ -3,10 +3,10 @@ package main
 // Core data structures of the VC generator: SMT context, symbolic values, lazily resolved heap state.
 
 import (
-	"os"
 	"fmt"
 	"go/types"
 	"math/big"
+	"os"
 	"sort"
 	"strings"
 )
